@@ -90,12 +90,23 @@ End NoOof.
 
 (* ------------------------------------------------------------------ how one step changes the world *)
 
-(* the only change Eval's main loop makes to task states: INIT/LOST -> WAITING,
-   once per emitted Run *)
-Definition wstep (w w' : world) (runs : list nat) : Prop :=
-  wcl w' = wcl w /\ NoDup runs /\
-  (forall t, In t runs -> (wst w t = TInit \/ wst w t = TLost) /\ wst w' t = TWaiting) /\
-  (forall t, ~ In t runs -> wst w' t = wst w t).
+(* What Eval's dispatch loop does to one task, exactly: the task's state,
+   consecutiveLost and lossUncounted before and after, and whether it was handed
+   to the executor.  [clo] selects the loss accounting (see Model). *)
+Definition tv (w : world) (t : nat) : tstate * Z * bool := (wst w t, wcl w t, wlu w t).
+
+Inductive tchg (clo : bool) : tstate * Z * bool -> tstate * Z * bool -> bool -> Prop :=
+| tc_id v : tchg clo v v false
+| tc_start c l : tchg clo (TInit, c, l) (TWaiting, c, if clo then true else l) true
+| tc_resub_old c l : clo = false -> tchg clo (TLost, c, l) (TWaiting, c, l) true
+| tc_resub c : clo = true -> tchg clo (TLost, c, false) (TWaiting, c, true) true
+| tc_count_resub c : clo = true -> (c + 1 < max_consecutive_lost)%Z ->
+    tchg clo (TLost, c, true) (TWaiting, (c + 1)%Z, true) true
+| tc_count_err c : clo = true -> (c + 1 >= max_consecutive_lost)%Z ->
+    tchg clo (TLost, c, true) (TErr, (c + 1)%Z, false) false.
+
+Definition wstep (clo : bool) (w w' : world) (runs : list nat) : Prop :=
+  NoDup runs /\ forall t, tchg clo (tv w t) (tv w' t) (mem t runs).
 
 Lemma nodup_app (a b : list nat) :
   NoDup a -> NoDup b -> (forall t, In t a -> In t b -> False) -> NoDup (a ++ b).
@@ -106,36 +117,77 @@ Proof.
   - apply IH; auto. intros t Ht1 Ht2. apply (D t); [right; exact Ht1 | exact Ht2].
 Qed.
 
-Lemma wstep_refl w : wstep w w [].
-Proof. repeat split; try constructor; try contradiction. Qed.
+Lemma mem_app t a b : mem t (a ++ b) = mem t a || mem t b.
+Proof. unfold mem. apply existsb_app. Qed.
 
-Lemma wstep_trans w w1 w2 r1 r2 : wstep w w1 r1 -> wstep w1 w2 r2 -> wstep w w2 (r1 ++ r2).
+Lemma wstep_refl clo w : wstep clo w w [].
+Proof. split; [constructor | intro t; apply tc_id]. Qed.
+
+Lemma tchg_trans clo a b c e1 e2 :
+  tchg clo a b e1 -> tchg clo b c e2 -> tchg clo a c (e1 || e2) /\ e1 && e2 = false.
 Proof.
-  intros [C1 [N1 [A1 B1]]] [C2 [N2 [A2 B2]]].
-  assert (D : forall t, In t r1 -> In t r2 -> False).
-  { intros t H1 H2. destruct (A1 t H1) as [_ E]. destruct (A2 t H2) as [[F|F] _]; congruence. }
-  split; [congruence|]. split.
-  { apply nodup_app; auto. }
-  split.
-  - intros t Ht. apply in_app_or in Ht. destruct Ht as [Ht|Ht].
-    + destruct (A1 t Ht) as [X Y]. split; [exact X|]. rewrite B2; [exact Y|]. intro; eapply D; eassumption.
-    + destruct (A2 t Ht) as [X Y]. split; [|exact Y]. rewrite B1 in X; [exact X|]. intro; eapply D; eassumption.
-  - intros t Ht. rewrite B2, B1; [reflexivity| |]; intro; apply Ht; apply in_or_app; auto.
+  intros H1 H2. inversion H1; subst; simpl.
+  - split; [exact H2 | reflexivity].
+  - inversion H2; subst. split; [exact H1 | reflexivity].
+  - inversion H2; subst. split; [exact H1 | reflexivity].
+  - inversion H2; subst. split; [exact H1 | reflexivity].
+  - inversion H2; subst. split; [exact H1 | reflexivity].
+  - inversion H2; subst. split; [exact H1 | reflexivity].
 Qed.
 
-Lemma wstep_done eda w w' runs : wstep w w' runs ->
+Lemma wstep_trans clo w w1 w2 r1 r2 :
+  wstep clo w w1 r1 -> wstep clo w1 w2 r2 -> wstep clo w w2 (r1 ++ r2).
+Proof.
+  intros [N1 A1] [N2 A2]. split.
+  - apply nodup_app; auto. intros t H1 H2.
+    destruct (tchg_trans _ _ _ _ _ _ (A1 t) (A2 t)) as [_ E].
+    apply mem_In in H1, H2. rewrite H1, H2 in E. discriminate.
+  - intro t. rewrite mem_app. apply (tchg_trans _ _ _ _ _ _ (A1 t) (A2 t)).
+Qed.
+
+(* the coarse reading used by the safety proofs *)
+Lemma wstep_nodup clo w w' runs : wstep clo w w' runs -> NoDup runs.
+Proof. intros [N _]. exact N. Qed.
+
+Lemma wstep_run clo w w' runs t : wstep clo w w' runs -> In t runs ->
+  (wst w t = TInit \/ wst w t = TLost) /\ wst w' t = TWaiting.
+Proof.
+  intros [_ A] H. specialize (A t). apply mem_In in H. rewrite H in A. unfold tv in A.
+  inversion A; subst; auto.
+Qed.
+
+Lemma wstep_other clo w w' runs t : wstep clo w w' runs -> ~ In t runs ->
+  wst w' t = wst w t \/ (clo = true /\ wst w t = TLost /\ wst w' t = TErr).
+Proof.
+  intros [_ A] H. specialize (A t). apply mem_false in H. rewrite H in A. unfold tv in A.
+  inversion A; subst; auto.
+Qed.
+
+Lemma wstep_done clo eda w w' runs : (clo = true -> eda = false) -> wstep clo w w' runs ->
   forall u, enq_class eda (wst w u) = CDone <-> enq_class eda (wst w' u) = CDone.
 Proof.
-  intros [_ [_ [A B]]] u. destruct (in_dec Nat.eq_dec u runs) as [H|H].
-  - destruct (A u H) as [[E|E] E']; rewrite E, E'; simpl; split; discriminate.
-  - rewrite (B u H). reflexivity.
+  intros Hv W u. destruct (in_dec Nat.eq_dec u runs) as [H|H].
+  - destruct (wstep_run _ _ _ _ _ W H) as [[E|E] E']; rewrite E, E'; simpl; split; discriminate.
+  - destruct (wstep_other _ _ _ _ _ W H) as [E|[C [E E']]]; [rewrite E; reflexivity|].
+    rewrite E, E', (Hv C). simpl. split; discriminate.
 Qed.
 
-Lemma wstep_not_init w w' runs t : wstep w w' runs -> wst w t <> TInit -> wst w' t <> TInit.
+Lemma wstep_not_init clo w w' runs t : wstep clo w w' runs -> wst w t <> TInit -> wst w' t <> TInit.
 Proof.
-  intros [_ [_ [A B]]] H. destruct (in_dec Nat.eq_dec t runs) as [I|I].
-  - destruct (A t I) as [_ E]. rewrite E. discriminate.
-  - rewrite (B t I). exact H.
+  intros W H. destruct (in_dec Nat.eq_dec t runs) as [I|I].
+  - destruct (wstep_run _ _ _ _ _ W I) as [_ E]. rewrite E. discriminate.
+  - destruct (wstep_other _ _ _ _ _ W I) as [E|[_ [_ E]]]; rewrite E; [exact H | discriminate].
+Qed.
+
+(* a handed-out task stays handed out, and is not handed out again *)
+Lemma wstep_keep clo w w' runs t : wstep clo w w' runs ->
+  (wst w t = TWaiting \/ wst w t = TRunning) -> wst w' t = wst w t /\ ~ In t runs.
+Proof.
+  intros W H.
+  assert (N : ~ In t runs).
+  { intro I. destruct (wstep_run _ _ _ _ _ W I) as [[X|X] _]; destruct H as [Y|Y]; congruence. }
+  split; [|exact N].
+  destruct (wstep_other _ _ _ _ _ W N) as [E|[_ [E _]]]; [exact E|]. destruct H as [Y|Y]; congruence.
 Qed.
 
 (* ------------------------------------------------------------------ Return, Runnable, dispatch *)
@@ -178,6 +230,7 @@ Proof.
 Qed.
 
 Section Steps.
+Variable clo : bool.
 Variable eda : bool.
 Variable g : list tnode.
 Hypothesis Hwf : wf g.
@@ -220,33 +273,108 @@ Qed.
 
 (* ---- dispatch ---- *)
 
+Lemma count_lost_tv w u :
+  (forall t, t <> u -> tv (fst (count_lost w u)) t = tv w t) /\
+  (wlu w u = false -> fst (count_lost w u) = w) /\
+  (wlu w u = true -> (wcl w u + 1 >= max_consecutive_lost)%Z ->
+     tv (fst (count_lost w u)) u = (TErr, (wcl w u + 1)%Z, false)) /\
+  (wlu w u = true -> (wcl w u + 1 < max_consecutive_lost)%Z ->
+     tv (fst (count_lost w u)) u = (wst w u, (wcl w u + 1)%Z, false)).
+Proof.
+  unfold count_lost. destruct (wlu w u) eqn:L.
+  - destruct (wcl w u + 1 >=? max_consecutive_lost)%Z eqn:G; cbn [fst].
+    + split; [intros t Ht; unfold tv; cbn [wst wcl wlu]; rewrite !upd_other by exact Ht; reflexivity|].
+      split; [discriminate|]. split.
+      * intros _ _. unfold tv. cbn [wst wcl wlu]. rewrite !upd_same. reflexivity.
+      * intros _ Hlt. apply Z.geb_le in G. lia.
+    + split; [intros t Ht; unfold tv; cbn [wst wcl wlu]; rewrite !upd_other by exact Ht; reflexivity|].
+      split; [discriminate|]. split.
+      * intros _ Hge. rewrite Z.geb_leb in G. apply Z.leb_gt in G. lia.
+      * intros _ _. unfold tv. cbn [wst wcl wlu]. rewrite !upd_same. reflexivity.
+  - cbn [fst]. split; [reflexivity|]. split; [reflexivity|]. split; discriminate.
+Qed.
+
+Lemma dispatch_one_single w ws runs u w' ws' runs' :
+  dispatch_one clo (w, ws, runs) u = (w', ws', runs') ->
+  exists b, ws' = ws ++ [(u, b)] /\ runs' = runs ++ (if b then [u] else []) /\
+            wstep clo w w' (if b then [u] else []).
+Proof.
+  unfold dispatch_one. intro E.
+  set (w0 := if clo && st_eqb (wst w u) TLost then fst (count_lost w u) else w) in *.
+  destruct (count_lost_tv w u) as [C1 [C2 [C3 C4]]].
+  assert (H0 : forall t, t <> u -> tv w0 t = tv w t).
+  { intros t Ht. subst w0. destruct (clo && st_eqb (wst w u) TLost); [apply C1, Ht | reflexivity]. }
+  (* the transition of u itself, up to the count *)
+  assert (Hu : tv w0 u = tv w u \/
+               (clo = true /\ wst w u = TLost /\ wlu w u = true /\
+                ((wcl w u + 1 >= max_consecutive_lost)%Z /\ tv w0 u = (TErr, (wcl w u + 1)%Z, false) \/
+                 (wcl w u + 1 < max_consecutive_lost)%Z /\ tv w0 u = (TLost, (wcl w u + 1)%Z, false)))).
+  { subst w0. destruct clo; [|left; reflexivity]. destruct (st_eqb (wst w u) TLost) eqn:S; [|left; reflexivity].
+    apply st_eqb_eq in S. simpl. destruct (wlu w u) eqn:L; [|left; rewrite (C2 eq_refl); reflexivity].
+    right. split; [reflexivity|]. split; [exact S|]. split; [reflexivity|].
+    destruct (Z_lt_ge_dec (wcl w u + 1) max_consecutive_lost) as [Lt|Ge].
+    - right. split; [exact Lt|]. rewrite (C4 eq_refl Lt), S. reflexivity.
+    - left. split; [exact Ge|]. apply (C3 eq_refl Ge). }
+  destruct (st_eqb (if st_eqb (wst w0 u) TLost then TInit else wst w0 u) TInit) eqn:R;
+    inversion E; subst w' ws' runs'; clear E.
+  - exists true. split; [reflexivity|]. split; [reflexivity|]. split; [repeat constructor; intros []|].
+    intro t. unfold mem. simpl. destruct (Nat.eqb t u) eqn:Q.
+    + apply Nat.eqb_eq in Q. subst t. simpl.
+      assert (Post : tv (mkW (upd (wst w0) u TWaiting) (wcl w0) (if clo then upd (wlu w0) u true else wlu w0)) u
+                     = (TWaiting, wcl w0 u, if clo then true else wlu w0 u)).
+      { unfold tv. cbn [wst wcl wlu]. rewrite upd_same. destruct clo; [rewrite upd_same|]; reflexivity. }
+      rewrite Post. clear Post.
+      assert (R' : wst w0 u = TLost \/ wst w0 u = TInit).
+      { destruct (st_eqb (wst w0 u) TLost) eqn:S; [left; apply st_eqb_eq, S | right; apply st_eqb_eq, R]. }
+      destruct Hu as [Hu|[Cl [S [L [[Ge Hu]|[Lt Hu]]]]]].
+      * unfold tv in Hu. injection Hu as Hs Hc Hl. rewrite Hs in R'. rewrite Hc, Hl. unfold tv.
+        destruct R' as [S|S]; rewrite S.
+        -- destruct clo eqn:Cl.
+           ++ (* counts once, state LOST, w0 = w: lossUncounted was false *)
+              destruct (wlu w u) eqn:L; [|apply tc_resub; reflexivity].
+              exfalso. subst w0. simpl in Hs. rewrite S in Hs. simpl in Hs.
+              destruct (Z_lt_ge_dec (wcl w u + 1) max_consecutive_lost) as [Lt|Ge].
+              ** pose proof (C4 eq_refl Lt) as X. unfold tv in X. injection X as _ Xc _.
+                 simpl in Hc. rewrite S in Hc. simpl in Hc. lia.
+              ** pose proof (C3 eq_refl Ge) as X. unfold tv in X. injection X as Xs _ _. congruence.
+           ++ apply tc_resub_old. reflexivity.
+        -- apply tc_start.
+      * exfalso. unfold tv in Hu. injection Hu as Hs _ _. destruct R' as [X|X]; congruence.
+      * unfold tv in Hu. injection Hu as Hs Hc Hl. unfold tv. rewrite S, L, Hc, Cl.
+        apply tc_count_resub; [reflexivity | exact Lt].
+    + apply Nat.eqb_neq in Q. simpl.
+      replace (tv (mkW (upd (wst w0) u TWaiting) (wcl w0) (if clo then upd (wlu w0) u true else wlu w0)) t)
+        with (tv w0 t).
+      * rewrite (H0 t Q). apply tc_id.
+      * unfold tv. cbn [wst wcl wlu]. rewrite upd_other by exact Q.
+        destruct clo; [rewrite upd_other by exact Q|]; reflexivity.
+  - exists false. split; [reflexivity|]. split; [rewrite app_nil_r; reflexivity|]. split; [constructor|].
+    intro t. simpl. destruct (Nat.eq_dec t u) as [->|Q]; [|rewrite (H0 t Q); apply tc_id].
+    destruct Hu as [Hu|[Cl [S [L [[Ge Hu]|[Lt Hu]]]]]].
+    + rewrite Hu. apply tc_id.
+    + rewrite Hu. unfold tv. rewrite S, L. apply tc_count_err; assumption.
+    + exfalso. unfold tv in Hu. injection Hu as Hs _ _. rewrite Hs in R. simpl in R. discriminate.
+Qed.
+
 Lemma dispatch_one_spec w0 w ws runs u w' ws' runs' :
-  dispatch_one (w, ws, runs) u = (w', ws', runs') -> wstep w0 w runs ->
-  wstep w0 w' runs' /\ (forall r, In r runs' -> In r runs \/ r = u) /\
+  dispatch_one clo (w, ws, runs) u = (w', ws', runs') -> wstep clo w0 w runs ->
+  wstep clo w0 w' runs' /\ (forall r, In r runs' -> In r runs \/ r = u) /\
   (exists b, ws' = ws ++ [(u, b)]).
 Proof.
-  unfold dispatch_one. intros E W.
-  destruct (st_eqb (if st_eqb (wst w u) TLost then TInit else wst w u) TInit) eqn:R.
-  - inversion E; subst. clear E. split; [|split].
-    + apply (wstep_trans w0 w _ runs [u] W). split; [reflexivity|]. split; [repeat constructor; intros []|]. split.
-      * intros t [<-|[]]. simpl. rewrite upd_same. split; [|reflexivity].
-        destruct (st_eqb (wst w u) TLost) eqn:L.
-        -- right. apply st_eqb_eq. exact L.
-        -- left. apply st_eqb_eq. exact R.
-      * intros t Ht. simpl. apply upd_other. intro; subst. apply Ht. left. reflexivity.
-    + intros r Hr. apply in_app_or in Hr. destruct Hr as [Hr|[<-|[]]]; auto.
-    + eexists. reflexivity.
-  - inversion E; subst. split; [exact W|]. split; [auto | eexists; reflexivity].
+  intros E W. destruct (dispatch_one_single _ _ _ _ _ _ _ E) as [b [Ew [Er Ws]]]. subst runs'.
+  split; [apply (wstep_trans _ _ _ _ _ _ W Ws)|]. split; [|exists b; exact Ew].
+  intros r Hr. apply in_app_or in Hr. destruct Hr as [Hr|Hr]; [left; exact Hr|].
+  destruct b; [destruct Hr as [<-|[]]; right; reflexivity | destruct Hr].
 Qed.
 
 Lemma dispatch_fold_spec w0 : forall ts w ws runs w' ws' runs',
-  fold_left dispatch_one ts (w, ws, runs) = (w', ws', runs') -> wstep w0 w runs ->
-  wstep w0 w' runs' /\ (forall r, In r runs' -> In r runs \/ In r ts) /\
+  fold_left (dispatch_one clo) ts (w, ws, runs) = (w', ws', runs') -> wstep clo w0 w runs ->
+  wstep clo w0 w' runs' /\ (forall r, In r runs' -> In r runs \/ In r ts) /\
   (forall p, In p ws' -> In p ws \/ In (fst p) ts).
 Proof.
   induction ts as [|u r IH]; intros w ws runs w' ws' runs' E W; cbn [fold_left] in E.
   - inversion E; subst. split; [exact W|]. split; auto.
-  - destruct (dispatch_one (w, ws, runs) u) as [[w1 ws1] runs1] eqn:D.
+  - destruct (dispatch_one clo (w, ws, runs) u) as [[w1 ws1] runs1] eqn:D.
     destruct (dispatch_one_spec w0 _ _ _ _ _ _ _ D W) as [W1 [R1 [b Eb]]].
     destruct (IH _ _ _ _ _ _ E W1) as [W' [R' P']]. split; [exact W'|]. split.
     + intros x Hx. destruct (R' x Hx) as [H|H]; [|right; right; exact H].
@@ -256,16 +384,16 @@ Proof.
 Qed.
 
 Lemma dispatch_spec ev w ev' w' runs :
-  dispatch ev w = (ev', w', runs) ->
-  wstep w w' runs /\ (forall r, In r runs -> In r (stodo (est ev))) /\
+  dispatch clo ev w = (ev', w', runs) ->
+  wstep clo w w' runs /\ (forall r, In r runs -> In r (stodo (est ev))) /\
   est ev' = snd (runnable (est ev)) /\ eroots ev' = eroots ev /\ estarted ev' = estarted ev /\
   edonec ev' = edonec ev /\ eres ev' = eres ev /\
   (forall p, In p (ewait ev') -> In p (ewait ev) \/ In (fst p) (stodo (est ev))).
 Proof.
   unfold dispatch. simpl.
-  destruct (fold_left dispatch_one (stodo (est ev)) (w, ewait ev, [])) as [[w1 ws] rs] eqn:F.
+  destruct (fold_left (dispatch_one clo) (stodo (est ev)) (w, ewait ev, [])) as [[w1 ws] rs] eqn:F.
   intro E. inversion E; subst. clear E. simpl.
-  destruct (dispatch_fold_spec w _ _ _ _ _ _ _ F (wstep_refl w)) as [W [R P]].
+  destruct (dispatch_fold_spec w _ _ _ _ _ _ _ F (wstep_refl clo w)) as [W [R P]].
   split; [exact W|]. split; [|repeat split; auto].
   intros r Hr. destruct (R r Hr) as [[]|H]. exact H.
 Qed.
@@ -308,7 +436,7 @@ Proof. destruct ev; reflexivity. Qed.
 Lemma main_top_settled k ev w acc :
   (forall t, In t (eroots ev) -> swait (est ev) (head g t) <> None) ->
   stodo (est ev) = [] -> spending (est ev) <> [] -> serr (est ev) = false ->
-  main_top eda g (S k) ev w acc = (ev, w, acc).
+  main_top clo eda g (S k) ev w acc = (ev, w, acc).
 Proof.
   intros Hm Et Ep Ee. simpl. rewrite (enqueue_all_hits (wst w) _ _ Hm).
   unfold sdone. rewrite Ee, Et. simpl.
@@ -319,11 +447,11 @@ Definition top_result (ev : evaluator) (w : world) (acc : list nat) : evaluator 
   let s1 := enqueue_all eda g (wst w) (est ev) (eroots ev) in
   if sdone s1 then (mkE (eroots ev) true s1 [] [] (Some (serr s1)), w, acc)
   else if is_nil (stodo s1) then (set_est ev s1, w, acc)
-  else let '(ev1, w1, runs) := dispatch (set_est ev s1) w in (ev1, w1, acc ++ runs).
+  else let '(ev1, w1, runs) := dispatch clo (set_est ev s1) w in (ev1, w1, acc ++ runs).
 
 Lemma main_top_eq k ev w acc :
   inv eda g (wst w) (est ev) -> soof (est ev) = false ->
-  main_top eda g (S (S k)) ev w acc = top_result ev w acc.
+  main_top clo eda g (S (S k)) ev w acc = top_result ev w acc.
 Proof.
   intros I O. destruct Hwf as [_ [_ [_ [rk [Hb Hrk]]]]]. pose proof (wf_closed g Hwf) as Hc.
   unfold top_result. cbn [main_top].
@@ -332,7 +460,7 @@ Proof.
   destruct (enqueue_all_spec eda g (wst w) Hc (eroots ev) (est ev) I O1) as [I1 W1]. fold s1 in I1, W1.
   destruct (sdone s1) eqn:D; [reflexivity|].
   destruct (is_nil (stodo s1)) eqn:N; [reflexivity|].
-  destruct (dispatch (set_est ev s1) w) as [[ev1 w1] runs] eqn:Dp.
+  destruct (dispatch clo (set_est ev s1) w) as [[ev1 w1] runs] eqn:Dp.
   destruct (dispatch_spec _ _ _ _ _ Dp) as [_ [_ [Es [Er _]]]]. simpl in Es, Er.
   destruct (runnable_fields s1) as [Ft [Fw [Fe [_ [_ [_ Fp]]]]]]. simpl in Ft, Fw, Fe, Fp.
   apply main_top_settled.
@@ -359,9 +487,11 @@ Proof.
   - intros u Hu. rewrite Ft in Hu. destruct Hu.
 Qed.
 
+Hypothesis Hver : clo = true -> eda = false.
+
 (* what one activation of the main loop (LStart, or LMain after its Return) guarantees *)
 Definition main_post (ev : evaluator) (w : world) (ev' : evaluator) (w' : world) (runs : list nat) : Prop :=
-  wstep w w' runs /\
+  wstep clo w w' runs /\
   (forall r, In r runs -> deps_done eda g (wst w) r) /\
   soof (est ev') = false /\
   (eres ev' = None -> stodo (est ev') = []) /\
@@ -374,11 +504,11 @@ Lemma deps_done_world w w' u :
 Proof. intros D H d Hd v Hv. apply D, (H d Hd v Hv). Qed.
 
 Lemma runs_ready w w' s runs :
-  todo_ok eda g (wst w) s -> wstep w w' runs -> (forall r, In r runs -> In r (stodo s)) ->
+  todo_ok eda g (wst w) s -> wstep clo w w' runs -> (forall r, In r runs -> In r (stodo s)) ->
   forall r, In r runs -> deps_done eda g (wst w) r.
 Proof.
-  intros T [_ [_ [A _]]] Hin r Hr. apply T; [apply Hin, Hr|].
-  destruct (A r Hr) as [[E|E] _]; rewrite E; reflexivity.
+  intros T W Hin r Hr. apply T; [apply Hin, Hr|].
+  destruct (wstep_run _ _ _ _ _ W Hr) as [[E|E] _]; rewrite E; reflexivity.
 Qed.
 
 Lemma top_result_spec ev w ev' w' runs :
@@ -404,7 +534,7 @@ Proof.
     + inversion E; subst. clear E. unfold main_post. simpl.
       split; [apply wstep_refl|]. split; [intros r []|]. split; [exact O1|].
       split; [intros _; apply is_nil_true; exact N|]. split; [congruence|]. split; [reflexivity | apply incl_refl].
-    + destruct (dispatch (set_est ev s1) w) as [[ev1 w1] runs1] eqn:Dp. inversion E; subst. clear E.
+    + destruct (dispatch clo (set_est ev s1) w) as [[ev1 w1] runs1] eqn:Dp. inversion E; subst. clear E.
       destruct (dispatch_spec _ _ _ _ _ Dp) as [Ws [Rin [Es [Er [_ [Ed [Ee _]]]]]]]. simpl in *.
       split; [exact Ws|]. split; [apply (runs_ready w w' s1); [apply I1 | exact Ws | exact Rin]|].
       split; [rewrite Es; exact O1|]. split; [intros _; rewrite Es; reflexivity|].
@@ -412,20 +542,20 @@ Proof.
 Qed.
 
 Lemma main_post_trans ev w ev1 w1 runs1 ev' w' runs2 :
-  wstep w w1 runs1 -> (forall r, In r runs1 -> deps_done eda g (wst w) r) ->
+  wstep clo w w1 runs1 -> (forall r, In r runs1 -> deps_done eda g (wst w) r) ->
   eroots ev1 = eroots ev -> incl (edonec ev1) (edonec ev) ->
   main_post ev1 w1 ev' w' runs2 -> main_post ev w ev' w' (runs1 ++ runs2).
 Proof.
   intros W1 R1 Er Ed [W2 [R2 [O [T [S [Er' Ed']]]]]].
   split; [eapply wstep_trans; eassumption|]. split.
   - intros r Hr. apply in_app_or in Hr. destruct Hr as [Hr|Hr]; [apply R1, Hr|].
-    apply (deps_done_world (wst w) (wst w1)); [apply (wstep_done eda _ _ _ W1) | apply R2, Hr].
+    apply (deps_done_world (wst w) (wst w1)); [apply (wstep_done clo eda _ _ _ Hver W1) | apply R2, Hr].
   - split; [exact O|]. split; [exact T|]. split; [rewrite <- Er; exact S|].
     split; [congruence | eapply incl_tran; eassumption].
 Qed.
 
 Lemma main_cont_spec ev w ev' w' runs :
-  main_cont eda g ev w = (ev', w', runs) ->
+  main_cont clo eda g ev w = (ev', w', runs) ->
   inv eda g (wst w) (est ev) -> soof (est ev) = false -> eres ev = None ->
   main_post ev w ev' w' runs.
 Proof.
@@ -434,10 +564,10 @@ Proof.
   - inversion E; subst. apply andb_true_iff in B. destruct B as [_ B]. apply is_nil_true in B.
     split; [apply wstep_refl|]. split; [intros r []|]. split; [exact O|]. split; [auto|].
     split; [congruence|]. split; [reflexivity | apply incl_refl].
-  - destruct (dispatch ev w) as [[ev1 w1] runs1] eqn:Dp.
+  - destruct (dispatch clo ev w) as [[ev1 w1] runs1] eqn:Dp.
     destruct (dispatch_spec _ _ _ _ _ Dp) as [Ws [Rin [Es [Er [_ [Ed [Ee _]]]]]]].
     assert (I1 : inv eda g (wst w1) (est ev1)).
-    { rewrite Es. apply (inv_world eda g (wst w)); [apply (wstep_done eda _ _ _ Ws) | reflexivity | apply inv_runnable, I]. }
+    { rewrite Es. apply (inv_world eda g (wst w)); [apply (wstep_done clo eda _ _ _ Hver Ws) | reflexivity | apply inv_runnable, I]. }
     assert (O1 : soof (est ev1) = false) by (rewrite Es; exact O).
     unfold main_fuel in E. rewrite (main_top_eq 2 ev1 w1 runs1 I1 O1) in E.
     assert (Ht : exists runs2, top_result ev1 w1 [] = (ev', w', runs2) /\ runs = runs1 ++ runs2).
@@ -446,7 +576,7 @@ Proof.
       destruct (sdone s1); [|destruct (is_nil (stodo s1))].
       - inversion E; subst. exists []. rewrite app_nil_r. split; reflexivity.
       - inversion E; subst. exists []. rewrite app_nil_r. split; reflexivity.
-      - destruct (dispatch (set_est ev1 s1) w1) as [[e2 w2] r2]. inversion E; subst. exists r2. split; reflexivity. }
+      - destruct (dispatch clo (set_est ev1 s1) w1) as [[e2 w2] r2]. inversion E; subst. exists r2. split; reflexivity. }
     destruct Ht as [runs2 [Et ->]].
     apply (main_post_trans ev w ev1 w1 runs1); auto.
     + apply (runs_ready w w1 (est ev)); [apply I | exact Ws | exact Rin].
@@ -455,7 +585,7 @@ Proof.
 Qed.
 
 Lemma step_start_spec ev w ev' w' runs :
-  step_start eda g ev w = (ev', w', runs) -> estarted ev = false ->
+  step_start clo eda g ev w = (ev', w', runs) -> estarted ev = false ->
   main_post ev w ev' w' runs.
 Proof.
   unfold step_start. intros E Hs. rewrite Hs in E. unfold main_fuel in E.
@@ -468,7 +598,7 @@ Proof.
 Qed.
 
 Lemma step_main_spec ev w ev' w' runs t rest :
-  step_main eda g ev w = (ev', w', runs) -> eres ev = None -> edonec ev = t :: rest ->
+  step_main clo eda g ev w = (ev', w', runs) -> eres ev = None -> edonec ev = t :: rest ->
   soof (est ev) = false -> stodo (est ev) = [] -> wst w t <> TInit ->
   main_post ev w ev' w' runs.
 Proof.
@@ -508,12 +638,21 @@ Definition handed (s : tstate) : Prop := s = TWaiting \/ s = TRunning.
 Definition legal_label (l : label) : Prop :=
   match l with LSet _ TInit => False | _ => True end.
 
-Inductive reachable (eda : bool) (g : list tnode) (sy0 : sys) : sys -> Prop :=
-| reach_init : reachable eda g sy0 sy0
-| reach_step sy l : reachable eda g sy0 sy -> legal_label l -> reachable eda g sy0 (fst (step eda g sy l)).
+Inductive reachable_v (clo eda : bool) (g : list tnode) (sy0 : sys) : sys -> Prop :=
+| reach_init : reachable_v clo eda g sy0 sy0
+| reach_step sy l : reachable_v clo eda g sy0 sy -> legal_label l ->
+                    reachable_v clo eda g sy0 (fst (step_v clo eda g sy l)).
+
+(* the code version that goes with [eda] (see Model.ver) *)
+Definition reachable (eda : bool) (g : list tnode) := reachable_v (ver eda) eda g.
+
+Lemma ver_ok eda : ver eda = true -> eda = false.
+Proof. unfold ver. destruct eda; [rewrite andb_false_r; discriminate | reflexivity]. Qed.
 
 Section Sys.
+Variable clo : bool.
 Variable eda : bool.
+Hypothesis Hver : clo = true -> eda = false.
 Variable g : list tnode.
 Hypothesis Hwf : wf g.
 
@@ -538,10 +677,17 @@ Lemma get_ev_In sy e : e < length (sevs sy) -> In (get_ev sy e) (sevs sy).
 Proof. intro H. apply nth_In. exact H. Qed.
 
 Lemma bookkeep_spec w t :
-  (forall u, u <> t -> wst (bookkeep w t) u = wst w u) /\
-  (wst (bookkeep w t) t = wst w t \/ (wst w t = TLost /\ wst (bookkeep w t) t = TErr)).
+  (forall u, u <> t -> wst (bookkeep clo w t) u = wst w u) /\
+  (wst (bookkeep clo w t) t = wst w t \/ (wst w t = TLost /\ wst (bookkeep clo w t) t = TErr)).
 Proof.
   unfold bookkeep. destruct (wst w t) eqn:E; simpl; try (split; [reflexivity | left; exact E]).
+  destruct clo.
+  - destruct (count_lost_tv w t) as [C1 [C2 [C3 C4]]]. split.
+    + intros u Hu. specialize (C1 u Hu). unfold tv in C1. injection C1 as X _ _. exact X.
+    + destruct (wlu w t) eqn:L; [|rewrite (C2 eq_refl); left; exact E].
+      destruct (Z_lt_ge_dec (wcl w t + 1) max_consecutive_lost) as [Lt|Ge].
+      * specialize (C4 eq_refl Lt). unfold tv in C4. injection C4 as X _ _. left. rewrite X. exact E.
+      * specialize (C3 eq_refl Ge). unfold tv in C3. injection C3 as X _ _. right. split; [reflexivity | exact X].
   - destruct (wcl w t + 1 >=? max_consecutive_lost)%Z; simpl.
     + split; [intros u Hu; apply upd_other; exact Hu | right; split; [reflexivity | apply upd_same]].
     + split; [reflexivity | left; exact E].
@@ -559,17 +705,20 @@ Record step_facts (sy : sys) (l : label) (sy' : sys) (runs : list (nat * nat)) :
   sf_run : forall e r, In (e, r) runs ->
            (wst (sw sy) r = TInit \/ wst (sw sy) r = TLost) /\ wst (sw sy') r = TWaiting;
   sf_keep : forall t, (forall s, l <> LSet t s) -> handed (wst (sw sy) t) ->
-            handed (wst (sw sy') t) /\ forall e, ~ In (e, t) runs }.
+            handed (wst (sw sy') t) /\ forall e, ~ In (e, t) runs;
+  (* a step of a main loop changes the world exactly as [wstep] says *)
+  sf_main : (forall e t, l <> LWait e t) -> (forall t s, l <> LSet t s) ->
+            exists rs, wstep clo (sw sy) (sw sy') rs /\ map snd runs = rs }.
 
 Lemma main_step_facts sy e l ev' w' rs :
   e < length (sevs sy) -> sys_ok sy -> (forall t s, l <> LSet t s) ->
-  main_post eda g (get_ev sy e) (sw sy) ev' w' rs ->
+  main_post clo eda g (get_ev sy e) (sw sy) ev' w' rs ->
   (eres (get_ev sy e) = None) ->
   (forall t, In t (edonec ev') -> In t (edonec (get_ev sy e))) ->
   step_facts sy l (mkSys w' (set_nth (sevs sy) e ev')) (map (pair e) rs).
 Proof.
   intros He Hok Hl [W [R [O [T [S [Er Ed]]]]]] Hn Hd.
-  assert (NI : forall t, wst (sw sy) t <> TInit -> wst w' t <> TInit) by (intros t; apply (wstep_not_init _ _ _ _ W)).
+  assert (NI : forall t, wst (sw sy) t <> TInit -> wst w' t <> TInit) by (intros t; apply (wstep_not_init _ _ _ _ _ W)).
   constructor; simpl.
   - intros ev Hev. apply set_nth_In in Hev. destruct Hev as [->|Hev].
     + split; [exact O|]. split; [exact T|]. intros t Ht. apply NI.
@@ -583,14 +732,13 @@ Proof.
   - intros e' Hn' Hs r Hr. unfold get_ev in Hs. simpl in Hs. destruct (Nat.eq_dec e e') as [<-|Ne].
     + rewrite nth_set_nth_same in Hs by exact He. apply S; assumption.
     + rewrite nth_set_nth_other in Hs by exact Ne. unfold get_ev in Hn'. congruence.
-  - rewrite map_map. simpl. rewrite map_id. apply W.
+  - rewrite map_map. simpl. rewrite map_id. apply (wstep_nodup _ _ _ _ W).
   - intros e' r Hr. apply in_map_iff in Hr. destruct Hr as [x [Hx Hin]]. inversion Hx; subst.
-    destruct W as [_ [_ [A _]]]. apply A, Hin.
-  - intros t _ Ht. destruct W as [_ [_ [A B]]].
-    assert (Nin : ~ In t rs).
-    { intro Hin. destruct (A t Hin) as [[X|X] _]; destruct Ht as [Y|Y]; congruence. }
-    split; [rewrite (B t Nin); exact Ht|].
+    apply (wstep_run _ _ _ _ _ W Hin).
+  - intros t _ Ht. destruct (wstep_keep _ _ _ _ _ W Ht) as [Eq Nin].
+    split; [rewrite Eq; exact Ht|].
     intros e' Hin. apply in_map_iff in Hin. destruct Hin as [x [Hx Hin]]. inversion Hx; subst. contradiction.
+  - intros _ _. exists rs. split; [exact W | rewrite map_map; simpl; apply map_id].
 Qed.
 
 Lemma noop_facts sy l : sys_ok sy -> step_facts sy l sy [].
@@ -604,6 +752,7 @@ Proof.
   - constructor.
   - intros e r [].
   - intros t _ Ht. split; [exact Ht | intros e []].
+  - intros _ _. exists []. split; [apply wstep_refl | reflexivity].
 Qed.
 
 Lemma sys_eta sy : mkSys (sw sy) (sevs sy) = sy.
@@ -611,7 +760,7 @@ Proof. destruct sy; reflexivity. Qed.
 
 Lemma step_spec sy l :
   sys_ok sy -> legal_label l ->
-  step_facts sy l (fst (step eda g sy l)) (snd (step eda g sy l)).
+  step_facts sy l (fst (step_v clo eda g sy l)) (snd (step_v clo eda g sy l)).
 Proof.
   intros Hok Hl. destruct l as [t s|e|e t|e]; simpl.
   - (* LSet *)
@@ -627,30 +776,31 @@ Proof.
     + intros e r [].
     + intros u Hu Hh. split; [|intros e []]. rewrite upd_other; [exact Hh|].
       intro; subst. apply (Hu s). reflexivity.
+    + intros _ H. exfalso. apply (H t s). reflexivity.
   - (* LStart *)
     destruct (Nat.ltb e (length (sevs sy))) eqn:L; [|apply noop_facts, Hok].
     apply Nat.ltb_lt in L.
-    destruct (step_start eda g (get_ev sy e) (sw sy)) as [[ev' w'] rs] eqn:E. simpl.
+    destruct (step_start clo eda g (get_ev sy e) (sw sy)) as [[ev' w'] rs] eqn:E. simpl.
     destruct (estarted (get_ev sy e)) eqn:St.
     + unfold step_start in E. rewrite St in E. inversion E; subst. simpl.
       assert (X : set_nth (sevs sy) e (get_ev sy e) = sevs sy).
       { unfold get_ev. clear. revert e. induction (sevs sy) as [|a l IH]; intros [|e]; simpl; auto. f_equal. apply IH. }
       rewrite X, sys_eta. apply noop_facts, Hok.
-    + pose proof (step_start_spec eda g Hwf _ _ _ _ _ E St) as MP.
+    + pose proof (step_start_spec clo eda g Hwf _ _ _ _ _ E St) as MP.
       assert (Hn : eres ev' = eres ev' ) by reflexivity.
       destruct MP as [W [R [O [T [S [Er Ed]]]]]].
       (* an evaluation that was never started has returned nothing yet *)
       constructor; simpl.
       * intros ev Hev. apply set_nth_In in Hev. destruct Hev as [->|Hev].
         -- split; [exact O|]. split; [exact T|]. intros t Ht.
-           unfold step_start in E. rewrite St in E. exfalso. clear -E Ht Hwf.
+           unfold step_start in E. rewrite St in E. exfalso. clear -E Ht Hwf Hver.
            unfold main_fuel in E.
            set (ev0 := mkE (eroots (get_ev sy e)) true new_state [] [] None) in *.
            assert (I0 : inv eda g (wst (sw sy)) (est ev0)) by (apply inv_empty; reflexivity).
-           rewrite (main_top_eq eda g Hwf 2 ev0 (sw sy) [] I0 eq_refl) in E.
-           pose proof (top_result_spec eda g Hwf ev0 (sw sy) ev' w' rs E I0 eq_refl eq_refl) as [_ [_ [_ [_ [_ [_ Ed]]]]]].
+           rewrite (main_top_eq clo eda g Hwf 2 ev0 (sw sy) [] I0 eq_refl) in E.
+           pose proof (top_result_spec clo eda g Hwf ev0 (sw sy) ev' w' rs E I0 eq_refl eq_refl) as [_ [_ [_ [_ [_ [_ Ed]]]]]].
            destruct (Ed t Ht).
-        -- apply (ev_ok_world (sw sy)); [intros t; apply (wstep_not_init _ _ _ _ W) | apply Hok, Hev].
+        -- apply (ev_ok_world (sw sy)); [intros t; apply (wstep_not_init _ _ _ _ _ W) | apply Hok, Hev].
       * apply set_nth_length.
       * intro e'. unfold get_ev. simpl. destruct (Nat.eq_dec e e') as [<-|Ne].
         -- rewrite nth_set_nth_same; [exact Er | exact L].
@@ -659,18 +809,17 @@ Proof.
       * intros e' Hn' Hs r Hr. unfold get_ev in Hs. simpl in Hs. destruct (Nat.eq_dec e e') as [<-|Ne].
         -- rewrite nth_set_nth_same in Hs by exact L. apply S; assumption.
         -- rewrite nth_set_nth_other in Hs by exact Ne. unfold get_ev in Hn'. congruence.
-      * rewrite map_map. simpl. rewrite map_id. apply W.
+      * rewrite map_map. simpl. rewrite map_id. apply (wstep_nodup _ _ _ _ W).
       * intros e' r Hr. apply in_map_iff in Hr. destruct Hr as [x [Hx Hin]]. inversion Hx; subst.
-        destruct W as [_ [_ [A _]]]. apply A, Hin.
-      * intros t _ Ht. destruct W as [_ [_ [A B]]].
-        assert (Nin : ~ In t rs).
-        { intro Hin. destruct (A t Hin) as [[X|X] _]; destruct Ht as [Y|Y]; congruence. }
-        split; [rewrite (B t Nin); exact Ht|].
+        apply (wstep_run _ _ _ _ _ W Hin).
+      * intros t _ Ht. destruct (wstep_keep _ _ _ _ _ W Ht) as [Eq Nin].
+        split; [rewrite Eq; exact Ht|].
         intros e' Hin. apply in_map_iff in Hin. destruct Hin as [x [Hx Hin]]. inversion Hx; subst. contradiction.
+      * intros _ _. exists rs. split; [exact W | rewrite map_map; simpl; apply map_id].
   - (* LWait *)
     destruct (Nat.ltb e (length (sevs sy))) eqn:L; [|apply noop_facts, Hok].
     apply Nat.ltb_lt in L.
-    destruct (step_wait (get_ev sy e) (sw sy) t) as [ev' w'] eqn:E. simpl.
+    destruct (step_wait clo (get_ev sy e) (sw sy) t) as [ev' w'] eqn:E. simpl.
     unfold step_wait in E.
     destruct (eres (get_ev sy e)) eqn:Hr.
     { inversion E; subst.
@@ -684,7 +833,7 @@ Proof.
         by (unfold get_ev; clear; revert e; induction (sevs sy) as [|a l IH]; intros [|e]; simpl; auto; f_equal; apply IH);
       rewrite X, sys_eta; apply noop_facts, Hok.
     inversion E; subst. clear E.
-    set (w' := if r then bookkeep (sw sy) t else sw sy).
+    set (w' := if r then bookkeep clo (sw sy) t else sw sy).
     assert (Hw : (forall u, u <> t -> wst w' u = wst (sw sy) u) /\
                  (wst w' t = wst (sw sy) t \/ (wst (sw sy) t = TLost /\ wst w' t = TErr))).
     { subst w'. destruct r; [apply bookkeep_spec | split; [reflexivity | left; reflexivity]]. }
@@ -711,23 +860,24 @@ Proof.
     + intros u _ Hu. split; [|intros e' []].
       destruct (Nat.eq_dec u t) as [->|Ne]; [|rewrite Hw1; assumption].
       destruct Hw2 as [->|[Z _]]; [exact Hu|]. destruct Hu as [Y|Y]; congruence.
+    + intros H _. exfalso. apply (H e t). reflexivity.
   - (* LMain *)
     destruct (Nat.ltb e (length (sevs sy))) eqn:L; [|apply noop_facts, Hok].
     apply Nat.ltb_lt in L.
-    destruct (step_main eda g (get_ev sy e) (sw sy)) as [[ev' w'] rs] eqn:E. simpl.
+    destruct (step_main clo eda g (get_ev sy e) (sw sy)) as [[ev' w'] rs] eqn:E. simpl.
     destruct (eres (get_ev sy e)) eqn:Hr; [|destruct (edonec (get_ev sy e)) as [|t rest] eqn:Hd].
     1,2: unfold step_main in E; rewrite Hr in E; try rewrite Hd in E; inversion E; subst;
       assert (X : set_nth (sevs sy) e (get_ev sy e) = sevs sy)
         by (unfold get_ev; clear; revert e; induction (sevs sy) as [|a l IH]; intros [|e]; simpl; auto; f_equal; apply IH);
       simpl; rewrite X, sys_eta; apply noop_facts, Hok.
     destruct (Hok _ (get_ev_In sy e L)) as [A [B C]].
-    pose proof (step_main_spec eda g Hwf _ _ _ _ _ _ _ E Hr Hd A (B Hr) (C t ltac:(rewrite Hd; left; reflexivity))) as MP.
+    pose proof (step_main_spec clo eda g Hwf Hver _ _ _ _ _ _ _ E Hr Hd A (B Hr) (C t ltac:(rewrite Hd; left; reflexivity))) as MP.
     apply main_step_facts; auto.
     + intros; discriminate.
     + destruct MP as [_ [_ [_ [_ [_ [_ Ed]]]]]]. exact Ed.
 Qed.
 
-Lemma reachable_ok sy0 sy : sys_ok sy0 -> reachable eda g sy0 sy -> sys_ok sy.
+Lemma reachable_ok sy0 sy : sys_ok sy0 -> reachable_v clo eda g sy0 sy -> sys_ok sy.
 Proof.
   intros H0 R. induction R; [exact H0|]. apply (sf_ok _ _ _ _ (step_spec sy l IHR H)).
 Qed.
